@@ -123,6 +123,17 @@ func cmdApi(args []string) error {
 	}
 	defer g.Close()
 	ctx := &relCtx{out: bufio.NewWriter(g), skip: map[string]int{}, byRel: map[string]int{}}
+	if w.Mode == "hist" {
+		// Expression() returns the creation string byte for byte, whatever surrounds the expression
+		for _, t := range texts {
+			for _, src := range []string{t, " " + t, t + " ", "\t" + t + "\n", "  " + t + "  ", "\n\n" + t, t + "\r\n"} {
+				ev, _ := run.Create(src)
+				if ev != nil {
+					ctx.emit(group{Rel: "flag", Ok: ev.Expression() == src, Info: map[string]interface{}{"law": "Expression() returns the source", "src": src, "got": ev.Expression()}})
+				}
+			}
+		}
+	}
 	sum := map[string]interface{}{}
 	sc := bufio.NewScanner(f)
 	sc.Buffer(make([]byte, 1<<20), 1<<28)
